@@ -28,7 +28,7 @@
 (*          dependents inside the graph until nothing new, yield           *)
 (*   peel : toposort - repeatedly take the items without open dependency   *)
 (*   bfs  : walk_dependencies - visit root, then dependencies breadth      *)
-(*          first                                                          *)
+(*          first (and, for refutation, the code's depth-first walk)       *)
 (* TLC checks on every program of the bounded size that the mechanisms     *)
 (* meet the reference and that the reference operators obey their laws.    *)
 (* specs/DrGraphTrace.tla judges what the REAL functions returned with the *)
@@ -46,7 +46,9 @@ CONSTANTS
     PrioSet,    \* prio of a registry point, 0..2 (the driver declares prio - 1; 1 = the default, "no priority")
     MaxAdds,    \* add_dependency calls after the declarations
     AskSet,     \* questions explored: "basic","sub","topo","walk","help","specs"
-    KeyMode     \* "any": every non-empty key set; "closed": key sets closed under dependencies; "all": all components
+    KeyMode,    \* "any": every non-empty key set; "closed": key sets closed under dependencies; "all": all components
+    Prefix,     \* declarations every program starts with (<<>>, or registry points with one parser each)
+    WalkMech    \* "bfs": walk_dependencies as documented; "dfs": a transcription of the code (TLC refutes BfsLaws)
 
 VARIABLES
     phase,      \* "define" | "adds" | "ask" | "grow" | "peel" | "bfs" | "done"
@@ -246,6 +248,50 @@ SpecsAskable(ep, a, k, c) ==
     /\ ~IsPoint(ep, c) /\ ~ReachesCycle(NeedEdges(ep), c)
     /\ \A x \in {c} \cup TC(NeedEdges(ep), c) : ~(IsDS(ep, x) /\ ImplOfSome(ep, a, k, x))
 
+(* A TRANSCRIPTION of the code of get_dependency_specs (get_requires / get_at_least_one with their      *)
+(* "if ss not in ..." filters), to say at model level where it leaves the meaning:                       *)
+(*   - only `requires` positions test for a spec name; a group member is always descended into           *)
+(*   - a group member's items are wrapped in a list only when it has BOTH requires and groups of its own *)
+(*   - items of such a list that an earlier member already put into the tuple are dropped from the list  *)
+RECURSIVE CodeReq(_, _), CodeAlo(_, _), CodeReqFold(_, _, _, _), CodeAloFold(_, _, _, _)
+NotIn(xs, acc) == SelectSeq(xs, LAMBDA ss : ss \notin Rng(acc))
+CodeReqFold(ep, rs, i, acc) ==
+    IF i > Len(rs) THEN acc
+    ELSE LET r == rs[i] IN
+         CodeReqFold(ep, rs, i + 1,
+                     IF IsPoint(ep, r) THEN (IF Fm("var", r, <<>>) \in Rng(acc) THEN acc ELSE Append(acc, Fm("var", r, <<>>)))
+                     ELSE acc \o NotIn(CodeReq(ep, r) \o CodeAlo(ep, r), acc))
+CodeReq(ep, c) == CodeReqFold(ep, ReqSeq(ep[c].decl), 1, <<>>)
+CodeAloFold(ep, ms, j, salo) ==
+    IF j > Len(ms) THEN salo
+    ELSE LET r == CodeReq(ep, ms[j])  a == CodeAlo(ep, ms[j]) IN
+         CodeAloFold(ep, ms, j + 1,
+                     IF r # <<>> /\ a # <<>> THEN Append(salo, Fm("and", 0, NotIn(r \o a, salo)))
+                     ELSE salo \o NotIn(IF r # <<>> THEN r ELSE a, salo))
+CodeAlo(ep, c) == LET gs == GrpSeq(ep[c].decl) IN [i \in DOMAIN gs |-> Fm("or", 0, CodeAloFold(ep, gs[i], 1, <<>>))]
+CodeForm(ep, c) == CodeReq(ep, c) \o CodeAlo(ep, c)
+PointsOf(ep)    == {x \in DOMAIN ep : IsPoint(ep, x)}
+CodeRight(ep, c) == \A S \in SUBSET PointsOf(ep) : EvalList(CodeForm(ep, c), S) = NeedsMet(ep, c, S)
+
+(* the classes of declarations on which it does (abstract features of the input; they name the findings) *)
+SeenBy(ep, c)   == {c} \cup {x \in TC(NeedEdges(ep), c) : ~IsPoint(ep, x)}
+GroupsOf(ep, x) == GrpSeq(ep[x].decl)
+ReqItems(ep, m) == LET rs == ReqSeq(ep[m].decl) IN
+                   ConcatAll([i \in DOMAIN rs |-> IF IsPoint(ep, rs[i]) THEN <<Fm("var", rs[i], <<>>)>> ELSE SpecForm(ep, rs[i])])
+AloItems(ep, m) == SubSeq(SpecForm(ep, m), Len(ReqItems(ep, m)) + 1, Len(SpecForm(ep, m)))
+Wrapped(ep, m)  == ReqItems(ep, m) # <<>> /\ AloItems(ep, m) # <<>>
+SpecInGroup(ep, c) == \E x \in SeenBy(ep, c) : \E g \in Rng(GroupsOf(ep, x)) : \E m \in Rng(g) : IsPoint(ep, m)
+OddMember(ep, c)   == \E x \in SeenBy(ep, c) : \E g \in Rng(GroupsOf(ep, x)) : \E m \in Rng(g) :
+                          ~IsPoint(ep, m) /\ ~Wrapped(ep, m) /\ Len(SpecForm(ep, m)) # 1
+Contrib(ep, m)  == IF IsPoint(ep, m) THEN {} ELSE IF Wrapped(ep, m) THEN {Fm("and", 0, SpecForm(ep, m))}
+                   ELSE Rng(SpecForm(ep, m))
+Absorbed(ep, c) == \E x \in SeenBy(ep, c) : \E g \in Rng(GroupsOf(ep, x)) : \E i, j \in DOMAIN g :
+                          i < j /\ ~IsPoint(ep, g[j]) /\ Wrapped(ep, g[j])
+                          /\ Rng(SpecForm(ep, g[j])) \cap Contrib(ep, g[i]) # {}
+SpecClasses(ep, c) == (IF SpecInGroup(ep, c) THEN {"spec-directly-in-a-group"} ELSE {})
+                      \cup (IF OddMember(ep, c) THEN {"group-member-whose-own-requirements-are-not-exactly-one-item"} ELSE {})
+                      \cup (IF Absorbed(ep, c) THEN {"group-member-repeats-an-item-of-an-earlier-member"} ELSE {})
+
 -----------------------------------------------------------------------------
 (* MECHANISM: declaration                                                   *)
 Low(c) == 1..(c - 1)
@@ -265,7 +311,7 @@ PointDecl == <<Item("grp", <<>>)>>          \* RegistryPoint: datasource([]) - o
 NoQ == [t |-> "none", K |-> {}, root |-> 0, pres |-> {}]
 
 Init ==
-    /\ prog = <<>> /\ adds = <<>> /\ deps = <<>> /\ dents = <<>> /\ q = NoQ
+    /\ prog = Prefix /\ adds = <<>> /\ deps = DMap(Prefix, <<>>, 0) /\ dents = InvOf(DMap(Prefix, <<>>, 0)) /\ q = NoQ
     /\ rest = {} /\ frontier = {} /\ seen = {} /\ parts = <<>>
     /\ ord = <<>> /\ stuck = FALSE /\ queue = <<>> /\ calls = <<>>
     /\ IF Fam = "raw"
@@ -338,7 +384,8 @@ AskWith(t, K, root, pres) ==
                           /\ data' = [x \in GNodes(GraphOn(K)) |-> Succ(GraphOn(K), x) \ {x}]
                           /\ UNCHANGED <<rest, queue, calls>>
          [] t = "walk" /\ ~ReachesCycle(D, root)
-                       -> /\ phase' = "bfs" /\ queue' = <<root>> /\ calls' = <<<<root, 0>>>>
+                       -> /\ phase' = "bfs" /\ calls' = <<<<root, 0>>>>
+                          /\ queue' = LET ds == Asc(D[root]) IN [i \in DOMAIN ds |-> <<ds[i], root>>]
                           /\ UNCHANGED <<G, data, rest>>
          [] OTHER      -> /\ phase' = "done"
                           /\ UNCHANGED <<G, data, rest, queue, calls>>
@@ -351,7 +398,8 @@ Ask ==
        \/ "topo" \in AskSet /\ \E K \in KeySets : AskWith("topo", K, 0, {})
        \/ "walk" \in AskSet /\ \E r \in Ids : AskWith("walk", {}, r, {})
        \/ "help" \in AskSet /\ \E r \in Ids, pres \in SUBSET Ids : AskWith("help", {}, r, pres)
-       \/ "specs" \in AskSet /\ \E r \in Ids : SpecsAskable(EffProg(prog, adds, Len(adds)), adds, Len(adds), r)
+       \/ "specs" \in AskSet /\ \E r \in Ids \ DOMAIN Prefix :
+                                               SpecsAskable(EffProg(prog, adds, Len(adds)), adds, Len(adds), r)
                                                /\ AskWith("specs", {}, r, {})
 
 (* grow: "keys are sorted as per prio"; take the first remaining key, spread  *)
@@ -389,13 +437,16 @@ PeelEnd ==
     /\ stuck' = (DOMAIN data # {}) /\ phase' = "done"
     /\ UNCHANGED <<prog, adds, deps, dents, q, G, rest, frontier, seen, parts, data, ord, queue, calls>>
 
-(* bfs: the head of the queue is expanded: its dependencies are visited and   *)
-(* queued (only asked for roots that reach no cycle)                           *)
+(* bfs: "visitor(root, None)", then the pending (dependency, parent) visits one at a time; a visited     *)
+(* component's own dependencies wait at the END of the line (breadth first, as documented) - or, in the  *)
+(* transcription of the code ("dfs"), go to the FRONT (visit(d) right after visitor(d, parent)).         *)
+(* Only asked for roots that reach no cycle.                                                             *)
+Kids(x) == LET ds == Asc(D[x]) IN [i \in DOMAIN ds |-> <<ds[i], x>>]
 Bfs ==
     /\ phase = "bfs" /\ queue # <<>>
-    /\ LET x == Head(queue)  ds == Asc(D[x]) IN
-        /\ calls' = calls \o [i \in DOMAIN ds |-> <<ds[i], x>>]
-        /\ queue' = Tail(queue) \o ds
+    /\ LET v == Head(queue) IN
+        /\ calls' = Append(calls, v)
+        /\ queue' = IF WalkMech = "bfs" THEN Tail(queue) \o Kids(v[1]) ELSE Kids(v[1]) \o Tail(queue)
     /\ UNCHANGED <<phase, prog, adds, deps, dents, q, G, rest, frontier, seen, parts, data, ord, stuck>>
 BfsEnd ==
     /\ phase = "bfs" /\ queue = <<>>
@@ -420,7 +471,7 @@ ClosureLaws ==
     /\ \A S \in SUBSET Ids : LET C == Close(D, S) IN
           /\ S \subseteq C /\ Close(D, C) = C                                  \* extensive, idempotent
           /\ \A x \in C : D[x] \subseteq C                                      \* closed
-          /\ \A T \in SUBSET Ids : S \subseteq T => C \subseteq Close(D, T)     \* monotone
+          /\ (Len(prog) <= 5) => \A T \in SUBSET Ids : S \subseteq T => C \subseteq Close(D, T)     \* monotone
           /\ C = UNION {Close(D, {x}) : x \in S} \cup S                         \* a list is the union of its members
     /\ \A c \in Ids : \A x \in TC(D, c) : TC(D, x) \subseteq TC(D, c)            \* transitive
     /\ \A c, x \in Ids : (x \in TC(D, c)) <=> (c \in TC(InvOf(D), x))            \* dependents walk = inverse
@@ -487,6 +538,16 @@ SpecLaws ==
     /\ \A S \in SUBSET pts : EvalList(SpecForm(ep, q.root), S) = NeedsMet(ep, q.root, S)   \* the documented form says it
     /\ \A S \in SUBSET pts : \A T \in SUBSET pts : (S \subseteq T /\ NeedsMet(ep, q.root, S)) => NeedsMet(ep, q.root, T)
     /\ \A S \in SUBSET pts : NeedsMet(ep, q.root, S) = NeedsMet(ep, q.root, S \cap TC(NeedEdges(ep), q.root))
+
+(* the transcription of the code leaves the meaning only on the recorded classes of declarations ...       *)
+AtSpecs == phase = "done" /\ q.t = "specs"
+CodeFormDeviatesOnlyInClasses ==
+    AtSpecs => LET ep == EffProg(prog, adds, Len(adds)) IN (SpecClasses(ep, q.root) = {} => CodeRight(ep, q.root))
+(* ... and does leave it on each of them: these three are EXPECTED to be refuted by TLC                       *)
+F_CodeRightOn(cl) == AtSpecs => LET ep == EffProg(prog, adds, Len(adds)) IN (SpecClasses(ep, q.root) = {cl} => CodeRight(ep, q.root))
+F_CodeRight_SpecInGroup == F_CodeRightOn("spec-directly-in-a-group")
+F_CodeRight_OddMember   == F_CodeRightOn("group-member-whose-own-requirements-are-not-exactly-one-item")
+F_CodeRight_Absorbed    == F_CodeRightOn("group-member-repeats-an-item-of-an-earlier-member")
 
 TypeOK ==
     /\ phase \in {"define", "adds", "ask", "grow", "peel", "bfs", "done"}
